@@ -50,7 +50,9 @@ AS = [
     "monotonicity in binary64 is checked as non-strict (the real functions are strictly monotone: theorems strict_mono_c / strict_mono_j)",
     "inputs outside [0,1] (not ratios of sketch sizes) are only compared with the model, the property says nothing about them",
 ]
-RULE = ("seven case flavours: cls (the mh flavour's sketch pairs through FracMinHashComparison - every estimate_* method and ANI property, cmp_scaled "
+RULE = ("(the mh flavour also sends a third of its sketch pairs through the compare-level ANI entry points: compare_all_pairs(return_ani=True) with n_jobs None and 2, "
+        "compare_serial, compare_serial_containment / _max_containment / _avg_containment(return_ani=True); a withheld MinHash-level estimate must be exactly 0.0 in the matrix) "
+        "seven case flavours: cls (the mh flavour's sketch pairs through FracMinHashComparison - every estimate_* method and ANI property, cmp_scaled "
         "None / max / coarser / finer, estimate_ani_ci, ani_confidence - NumMinHashComparison, PrefetchResult, GatherResult, SearchResult incl. the CSV row "
         "written through their own DictWriter; relation oracle: every class-level ANI equals the MinHash-level answer on the correspondingly downsampled "
         "sketches, 0.0 for reliable disjoint, 1.0 for reliable identical, withheld iff a size estimate is inaccurate), six more flavours: native (the Rust estimator next to the Python one on the same inputs: point estimate, interval, r1_to_q, exp/var_n_mutated, "
